@@ -436,3 +436,63 @@ fn c04_canonical_rdata_order_rrsig() {
     let w = canon_order!(r1, r2);
     kani::cover!(w == Ordering::Less && t1 == t2 && a1 == a2 && l1 == l2 && o1 == o2 && e1 == e2 && i1 == i2 && k1 == k2, "order decided by the signer name");
 }
+
+// ------------------------------------ opaque record data and the all-types enum
+use domain::base::rdata::UnknownRecordData;
+use domain::base::iana::Rtype;
+use domain::rdata::AllRecordData;
+
+// @funcs: <UnknownRecordData as PartialEq/PartialOrd/Ord/CanonicalOrd>, UnknownRecordData::from_octets
+// @bound: two opaque record data values, any two record types (all 2^16 x 2^16), data of 0..=2 symbolic octets: == <=> same type and same octets <=> cmp/partial_cmp/canonical_cmp say Equal; the orders are antisymmetric; within one type the canonical order is the octet-wise order of the data
+// @outside: data longer than 2 octets
+#[kani::proof]
+#[kani::unwind(6)]
+fn c04_unknown_rdata_eq_ord_coherent() {
+    let (t1, t2): (u16, u16) = (kani::any(), kani::any());
+    let (d1, d2): ([u8; 2], [u8; 2]) = (kani::any(), kani::any());
+    let (n1, n2): (usize, usize) = (kani::any(), kani::any());
+    kani::assume(n1 <= 2 && n2 <= 2);
+    let a = UnknownRecordData::from_octets(Rtype::from_int(t1), &d1[..n1]).unwrap();
+    let b = UnknownRecordData::from_octets(Rtype::from_int(t2), &d2[..n2]).unwrap();
+    let same = t1 == t2 && lex_cmp(&d1[..n1], &d2[..n2], false) == Ordering::Equal;
+    assert!((a == b) == same);
+    assert!((a.cmp(&b) == Ordering::Equal) == same);
+    assert!((a.partial_cmp(&b) == Some(Ordering::Equal)) == same);
+    assert!((a.canonical_cmp(&b) == Ordering::Equal) == same);
+    assert!(b.cmp(&a) == a.cmp(&b).reverse());
+    assert!(b.canonical_cmp(&a) == a.canonical_cmp(&b).reverse());
+    if t1 == t2 {
+        assert!(a.canonical_cmp(&b) == lex_cmp(&d1[..n1], &d2[..n2], false));
+    }
+    kani::cover!(t1 != t2 && n1 == n2 && d1 == d2, "same octets under different types");
+    kani::cover!(same && n1 == 2, "equal two-octet data");
+}
+
+// @funcs: <AllRecordData as PartialEq>::eq, <AllRecordData as PartialOrd>::partial_cmp, <AllRecordData as CanonicalOrd>::canonical_cmp, <AllRecordData as Hash>::hash (Unknown variant)
+// @bound: two AllRecordData::Unknown values, any two record types, data of 0..=2 symbolic octets: == <=> same type and octets <=> partial_cmp/canonical_cmp Equal; every value equals itself; equal values feed the hasher identical octets
+// @outside: the other variants of the enum (the typed variants delegate to the per-type impls checked elsewhere), OPT variant (separate harness)
+#[kani::proof]
+#[kani::unwind(14)]
+fn c04_all_record_data_unknown_variant_coherent() {
+    type All<'a> = AllRecordData<&'a [u8], domain::base::name::Name<&'a [u8]>>;
+    let (t1, t2): (u16, u16) = (kani::any(), kani::any());
+    let (d1, d2): ([u8; 2], [u8; 2]) = (kani::any(), kani::any());
+    let (n1, n2): (usize, usize) = (kani::any(), kani::any());
+    kani::assume(n1 <= 2 && n2 <= 2);
+    let a: All = AllRecordData::Unknown(UnknownRecordData::from_octets(Rtype::from_int(t1), &d1[..n1]).unwrap());
+    let b: All = AllRecordData::Unknown(UnknownRecordData::from_octets(Rtype::from_int(t2), &d2[..n2]).unwrap());
+    let same = t1 == t2 && lex_cmp(&d1[..n1], &d2[..n2], false) == Ordering::Equal;
+    assert!(a == a);
+    assert!((a == b) == same);
+    assert!((a.partial_cmp(&b) == Some(Ordering::Equal)) == same);
+    assert!((a.canonical_cmp(&b) == Ordering::Equal) == same);
+    if a == b {
+        let mut h1 = RecHasher::<24>::new();
+        let mut h2 = RecHasher::<24>::new();
+        a.hash(&mut h1);
+        b.hash(&mut h2);
+        assert!(h1.same(&h2));
+    }
+    kani::cover!(same && n1 == 2, "equal two-octet data");
+    kani::cover!(t1 != t2 && n1 == n2 && d1 == d2, "same octets under different types");
+}
